@@ -143,6 +143,23 @@ Definition emit (typ length : N) (l : lexer) : res lexer :=
 Definition emitc (typ n : N) (l : lexer) : res lexer :=
   let* l1 := emit typ n l in Ok (addcol n l1).
 
+(* ---- the delimiters that open and close a block of code, and one step of
+   the tiling of the source by the top level tokens (used by the spec side of
+   C15, CutSpec.tiles): state = (next offset, inside a block) ---- *)
+Definition is_open (ty : N) : bool :=
+  (ty =? gen_tokenLeftBraces) || (ty =? gen_tokenStartStatement) || (ty =? gen_tokenStartStatements).
+Definition is_close (ty : N) : bool :=
+  (ty =? gen_tokenRightBraces) || (ty =? gen_tokenEndStatement) || (ty =? gen_tokenEndStatements).
+Definition tstep (st : option (N * bool)) (t : token) : option (N * bool) :=
+  match st with
+  | None => None
+  | Some (pos, inb) =>
+    if t_len t =? 0 then Some (pos, inb)
+    else if inb then (if is_close (t_typ t) then Some (t_end t + 1, false) else Some (pos, true))
+    else if is_open (t_typ t) then (if t_start t =? pos then Some (pos, true) else None)
+    else if t_start t =? pos then Some (t_end t + 1, false) else None
+  end.
+
 (* ---- byte predicates (generated sets) ---- *)
 Definition isSpace (c : N) : bool := mem gen_lex_isSpace c.
 Definition isASCIISpace (c : N) : bool := mem gen_lex_isASCIISpace c.
